@@ -33,6 +33,14 @@ type State struct {
 	compEpoch map[string]int
 	heapDirty bool // some unknown call havocked the whole heap
 	pureInst  map[string]bool
+	// alias links of inner maps: local map variable -> the outer map element it denotes
+	aliasLinks map[types.Object]*aliasLink
+}
+
+type aliasLink struct {
+	base ast.Expr // map-typed lvalue E
+	text string   // printed E
+	key  Val      // value of k when the link was made
 }
 
 func (st *State) clone() *State {
@@ -50,6 +58,12 @@ func (st *State) clone() *State {
 	}
 	for k, v := range st.pureInst {
 		n.pureInst[k] = v
+	}
+	if len(st.aliasLinks) > 0 {
+		n.aliasLinks = make(map[types.Object]*aliasLink, len(st.aliasLinks))
+		for k, v := range st.aliasLinks {
+			n.aliasLinks[k] = v
+		}
 	}
 	for k, v := range st.compEpoch {
 		n.compEpoch[k] = v
@@ -162,6 +176,7 @@ type Exec struct {
 	intrinsics    map[string]bool
 	cloVerified   map[*ast.FuncLit]bool
 	pureDepth     int
+	noLink        int
 	reassigned    map[types.Object]bool
 	freshPtrVars  map[*types.Var]bool
 	freshStructVars map[*types.Var]bool
